@@ -535,6 +535,32 @@ impl InterfaceInner {
                     checksum_caps,
                 );
             }
+            IpPayload::HopByHopIcmpv6(hbh_repr, icmp_repr) => {
+                // The hop-by-hop header is carried in line, followed by the ICMPv6 message.
+                let ext_hdr = Ipv6ExtHeaderRepr {
+                    next_header: IpProtocol::Icmpv6,
+                    length: 0,
+                    data: &[],
+                };
+                ext_hdr.emit(&mut Ipv6ExtHeader::new_unchecked(
+                    &mut buffer[..ext_hdr.header_len()],
+                ));
+
+                let hbh_start = ext_hdr.header_len();
+                let hbh_end = hbh_start + hbh_repr.buffer_len();
+                hbh_repr.emit(&mut Ipv6HopByHopHeader::new_unchecked(
+                    &mut buffer[hbh_start..hbh_end],
+                ));
+
+                icmp_repr.emit(
+                    &packet.header.src_addr,
+                    &packet.header.dst_addr,
+                    &mut Icmpv6Packet::new_unchecked(
+                        &mut buffer[hbh_end..hbh_end + icmp_repr.buffer_len()],
+                    ),
+                    checksum_caps,
+                );
+            }
             #[cfg(any(feature = "socket-udp", feature = "socket-dns"))]
             IpPayload::Udp(udp_repr, payload) => {
                 let udp_repr = SixlowpanUdpNhcRepr(*udp_repr);
